@@ -353,3 +353,20 @@ Definition nextframe_paths_drain_always : bool :=
   some_path "packetizer.NextFrame" (occurs "decodeRPC") &&
   all_paths "frameReader.drain" (fun tr => Nat.eqb (count_of "l.r.Discard" tr) 1) &&
   vocabulary "frameReader.drain" ["int"; "l.r.Discard"; "int32"; "fmt.Errorf"].
+
+(* ---------- sixth batch: cancellation on the calling side ---------- *)
+(* C08: whenever dispatch.Call leaves through a context arm (in either wait) it has called handleCancel exactly once, after the
+   hand-off to the encoder and before the call is unregistered; it never does so on any other way out; handleCancel queues
+   exactly one cancellation frame, on every path, and returns the context's error *)
+Definition call_paths_cancel : bool :=
+  all_paths "dispatch.Call"
+    (fun tr => if occurs "arm Arm Recv ""c.ctx.Done()""" tr
+               then Nat.eqb (count_of "d.handleCancel" tr) 1
+                    && in_order ["d.writer.EncodeAndWrite"; "d.handleCancel"; "d.calls.RemoveCall"] tr
+               else negb (occurs "d.handleCancel" tr)) &&
+  Nat.eqb (length (filter (occurs "d.handleCancel") (traces_of "dispatch.Call")))
+          (length (filter (occurs "arm Arm Recv ""c.ctx.Done()""") (traces_of "dispatch.Call"))) &&
+  some_path "dispatch.Call" (occurs "d.handleCancel") &&
+  all_paths "dispatch.handleCancel"
+    (fun tr => Nat.eqb (count_of "d.writer.EncodeAndWriteAsync" tr) 1 && Nat.eqb (count_of "c.ctx.Err" tr) 1
+               && in_order ["d.writer.EncodeAndWriteAsync"; "c.ctx.Err"] tr).
